@@ -7,7 +7,7 @@ Import ListNotations.
 Open Scope Z_scope.
 
 Definition OP_IGAM : N := 9.
-Definition f_isnan (x : float) : bool := negb (PrimFloat.eqb x x).
+Definition f_is_value (x : float) : bool := (PrimFloat.ltb (PrimFloat.abs x) infinity && PrimFloat.ltb 0 x)%bool.
 Definition igam_oracle (tb : oracle) (a p : float) (n : nat) (eps : float) : res float :=
   Ok (ocall2 tb OP_IGAM a p).
 
@@ -50,7 +50,7 @@ Definition render_sample (tb : oracle) es ext (D : nat) (point : list float) (si
     (edata : list (option float * list float)) (stab : option float) : list Z :=
   with_table tb es ext D (fun t =>
     let SC := F64 tb in
-    match sample SC SC (igam_oracle tb) f_isnan t D point sig edata (mkSettings stab false true) with
+    match sample SC SC (igam_oracle tb) f_is_value t D point sig edata (mkSettings stab false true) with
     | Panic w => [3; Z.of_nat w]
     | Ok (inl (ErrMatrix ZeroDet)) => [1; 1]
     | Ok (inl (ErrMatrix Unstable)) => [1; 2]
@@ -124,3 +124,20 @@ Definition render_jacobian (tb : oracle) (D : nat) (dod factor u v : float) : li
   let S := F64 tb in
   let half := PrimFloat.div (f64_of_Z (Z.of_nat D)) (f64_of_Z 2) in
   [bits_of (PrimFloat.mul (PrimFloat.mul (s_powf S (PrimFloat.div 1 u) half) (s_powf S (PrimFloat.div 1 v) dod)) factor)].
+
+(* C12: the Gamma quantile with all six external functions answered from the table.
+   ops 17 / 18 mark arguments at which statrs' gamma_lr / gamma_ur panic. *)
+From MT Require Import Model.Gamma.
+Definition OP_GLR_PANIC : N := 17.
+Definition OP_GUR_PANIC : N := 18.
+Definition oracle_inc (tb : oracle) (op oppanic : N) (a x : float) : option float :=
+  match olookup tb oppanic (bits_of a) (bits_of x) with
+  | Some _ => None
+  | None => match olookup tb op (bits_of a) (bits_of x) with Some r => Some r | None => Some nan end
+  end.
+Definition render_gamma (tb : oracle) (a p : float) (n : nat) (eps : float) : list Z :=
+  match inverse_gamma_lr_impl_tagged (ocall1 tb OP_LN) (ocall1 tb OP_EXP) (ocall2 tb OP_POWF) (ocall1 tb OP_GAMMA)
+          (oracle_inc tb OP_GAMMA_LR OP_GLR_PANIC) (oracle_inc tb OP_GAMMA_UR OP_GUR_PANIC) a p n eps with
+  | Ok (x, tag) => [0%Z; bits_of x; Z.of_N tag; if is_value x then 1%Z else 0%Z]
+  | Panic w => [3%Z; Z.of_nat w]
+  end.
